@@ -19,6 +19,7 @@ MAPPINGS = [
     {'a': '', 'b': '$(A)', '_1': 'v w'},
     {'A': 'UPPER-KEY-NEVER-FOUND', 'a_': '}', 'x': '${', 'xy': 'x$y'},
 ]
+TWICE_ENVS = [{'A': 'one', 'b': ''}, {'A': 'two', 'B': 'x'}]
 ENVS = [
     {'a': 'E', 'A': 'e$$', 'B': ''},
     {'A': '$a', 'Ab': 'mixed'},
@@ -58,6 +59,9 @@ class C04(Harness):
                 us.append({'kind': 'subst', 'len': L, 'map': mi})
         for L in range(b['isname_max_len'] + 1):
             us.append({'kind': 'isname', 'len': L})
+        # the same text substituted twice in one process under two different environments
+        for L in (1, 2, 3):
+            us.append({'kind': 'twice', 'len': L})
         return us
 
     def inputs(self, eng, unit):
@@ -74,8 +78,17 @@ class C04(Harness):
             except Exception as e:
                 return ('crash', type(e).__name__)
             return ('isname-true',) if r else ('isname-false',)
-        mapping = dict(MAPPINGS[unit['map']])
-        env = ENVS[unit['map']]
+        if unit['kind'] == 'twice':
+            t = '$(' + s[:1] + ')' + s[1:]
+            u0 = dict(unit, kind='subst', map=0)
+            a = self._subst(t, dict(MAPPINGS[0]), TWICE_ENVS[0])
+            b = self._subst(t, dict(MAPPINGS[0]), TWICE_ENVS[1])
+            return ('ok', a, b)
+        return self._subst(s, dict(MAPPINGS[unit['map']]), ENVS[unit['map']])
+
+    def _subst(self, s, mapping, env):
+        import ZConfig
+        from ZConfig import substitution
         from .. import instr
         concrete = isinstance(s, str)
         if concrete:
@@ -106,12 +119,26 @@ class C04(Harness):
         s = inp['s']
         if unit['kind'] == 'isname':
             return ('isname-true',) if O.isname(s) else ('isname-false',)
+        if unit['kind'] == 'twice':
+            t = '$(' + s[:1] + ')' + s[1:]
+            out = []
+            for env in TWICE_ENVS:
+                r = O.reference(t, MAPPINGS[0], env, lambda x: x.lower())
+                out.append(('error', r[1], r[2], t) if r[0] == 'error' else r)
+            return ('ok', out[0], out[1])
         r = O.reference(s, MAPPINGS[unit['map']], ENVS[unit['map']], lambda x: x.lower())
         if r[0] == 'error':
             return ('error', r[1], r[2], s)
         return r
 
     def agree(self, unit, real, exp):
+        if unit['kind'] == 'twice':
+            if real[0] != 'ok':
+                return z3.BoolVal(False)
+            return z3.And(self._agree1(real[1], exp[1]), self._agree1(real[2], exp[2]))
+        return self._agree1(real, exp)
+
+    def _agree1(self, real, exp):
         if exp[0] != 'error':
             return deep_eq(real, exp)
         _, syntax_ok, names, s = exp
@@ -134,6 +161,9 @@ class C04(Harness):
         # adversarial witnesses: the string equals / contains a mapping key
         s = inp['s']
         out = []
+        if unit['kind'] == 'twice' and len(s) >= 1:
+            for ch in 'ABab':
+                out.append(s.cs[0] == ord(ch))
         if unit['kind'] == 'subst' and len(s) >= 2:
             cs = s.cs
             out.append(z3.And(cs[0] == ord('$'), cs[1] == ord('a')))
